@@ -8,7 +8,7 @@ Extracts from the CURRENT sources the bodies of
     Future<void>::Future()  ~Future()  join()  abort()  isAborting()  isFinished()  isAborted()  set()   enum Future<void>::State
     Future<A>::operator const A&()  ~Future()   (the other members of Future<A> must be plain forwards to the embedded Future<void>)
     Future<void>::proc<A> / Future<A>::proc<B>: the order of body call / result store / set() / delete
-    Signal::set()  reset()  wait()  of src/Signal.cpp (pthread branch)
+    Signal::set()  reset()  wait()  of src/Signal.cpp (pthread branch)        Future<void>::startProc (pool pointer as a number, `new Private::ThreadPool` as the effect `created`)
     ThreadContext::proc (the worker loop)      ThreadPool::run up to its third counter read (push loop with back-pressure, the counters;
                                                a void helper of the class that the loop is moved into is inlined at its call)
 and the worker-count decision of ThreadPool::run (from `Atomic::increment(_pushedJobs)` on: counter arithmetic with 64-bit wrap-around and the
@@ -19,7 +19,7 @@ lean/Nstd/Future/PropsGen.lean proves that the generated micro-step functions AR
 (`ringStep`, `stepFrame … (.fSet/.fRst/.fRstLoad/.fWait/.join/.joinClr/.pSetRd/.pSetX/.pSig/.evResult/…)`, `Ring.init`, `mkPool`,
 the branch taken by `runRdTc` = the translated decision tree).
 NOT translated (hand translation, tied by the step-by-step replay only): the effect statements of ThreadPool::run after the decision
-(spawn and retire branches under the mutex, purge of the context list, Thread::start), ~ThreadPool, startProc.
+(spawn and retire branches under the mutex, purge of the context list, Thread::start), ~ThreadPool.
 
 Micro-step compilation (push / pop / size / FastSignal::*): the body is lowered to a list of instructions; every access to a
 SHARED location (`_tail`, `_head`, `node->tail`, `node->head`, `node->data`, `_state`, `_aborting`, `_joinable`, `result`; plain or through
@@ -233,6 +233,10 @@ class P:
             if m:
                 self.skip_semicolon()
                 return ("posix", {"mutex_lock": "lock", "mutex_unlock": "unlock", "cond_broadcast": "bcast", "cond_wait": "cwait"}[m.group(1)])
+            m = re.fullmatch(r"NSTD_EFFECT_(\w+)", text)
+            if m:
+                self.skip_semicolon()
+                return ("effect", m.group(1))
             if text == "Atomic::memoryBarrier()":
                 self.skip_semicolon()
                 return ("block", [])
@@ -796,6 +800,8 @@ class Lower:
                 self.inline(e[1][1], e[2])
                 return
             self.refuse(f"expression statement of form `{e[0]}` is outside the translated subset")
+        elif k == "effect":
+            self.emit("raw2", s[1])
         elif k == "posix":
             if s[1] == "cwait":
                 # pthread_cond_wait = three scheduling points: release the mutex and enter the wait set; be woken; re-acquire the mutex
@@ -974,6 +980,8 @@ class MicroSteps:
             return [f"{ind}({sv}, .goto {self.pc_of[i]} L)"]
         if k == "local":
             return [f"{ind}let L := {{ L with {x[1]} := {x[2]} }}"] + self.walk(i + 1, ind, seen)
+        if k == "raw2":
+            return [f"{ind}let {sv} := {{ {sv} with {x[1]} := true }}"] + self.walk(i + 1, ind, seen)
         if k == "raw":
             return [f"{ind}let {sv} := {self.wr(x[1], 'none')}"] + self.walk(i + 1, ind, seen)
         if k == "br":
@@ -1106,6 +1114,27 @@ def gen_signal(repo):
         parts.append(f"/-! ### Signal::{fn} (src/Signal.cpp, pthread branch) -/\n" + txt)
         counts["Signal::" + fn] = k
     return parts, counts
+
+
+START_ENV = dict(
+    state_var="x",
+    shared={"Private::_threadPool": ("nat", "{r}.tp", "{{ {r} with tp := {v} }}"),
+            "Private::_threadPoolLock": ("nat", "{r}.tplock", "{{ {r} with tplock := {v} }}"),
+            "_joinable": ("bool", "{r}.fut.joinable", "{{ {r} with fut := {{ {r}.fut with joinable := {v} }} }}"),
+            "_aborting": ("bool", "{r}.fut.aborting", "{{ {r} with fut := {{ {r}.fut with aborting := {v} }} }}")},
+    const={},
+    calls={"join": "futJoin", "threadPool->run": "poolRun"},
+    call_args={"threadPool->run": ["proc", "args"]},
+)
+
+
+def start_prep(body):
+    """the pool pointer is a number (0 = null); `new Private::ThreadPool` yields a non-null pointer and marks the state `created`"""
+    body, n1 = re.subn(r"Private::ThreadPool\s*\*\s*threadPool\s*=", "usize threadPool =", body)
+    body, n2 = re.subn(r"threadPool\s*=\s*new\s+Private::ThreadPool\s*;", "threadPool = 1; NSTD_EFFECT_created;", body)
+    if n1 != 1 or n2 != 1:
+        raise Refuse("Future<void>::startProc: the declaration of `threadPool` / `threadPool = new Private::ThreadPool;` not found exactly once")
+    return body, {}
 
 
 def locals_struct(name, order, poly):
@@ -1591,6 +1620,10 @@ def gen_future_hpp(repo, src_cpp):
         counts["Future<void>::" + name] = n
     txt, n = compile_fn(src_cpp, "Future<void>::set", r"void\s+Future<void>::set\(\s*\)", env, {}, "Unit", "futSetStep", "", "Fut", "FutSetL", False)
     parts.append("/-! ### Future<void>::set (src/Future.cpp) -/\n" + txt)
+    txt, n = compile_fn(src_cpp, "Future<void>::startProc", r"void\s+Future<void>::startProc\(\s*void\s*\(\s*\*\s*proc\s*\)\s*\(\s*void\s*\*\s*\)\s*,\s*void\s*\*\s*args\s*\)",
+                        START_ENV, {}, "Unit", "startProcStep", "", "StartSt", "StartProcL", False, prep=start_prep)
+    parts.append("/-! ### Future<void>::startProc (src/Future.cpp) -/\n" + txt)
+    counts["Future<void>::startProc"] = n
     counts["Future<void>::set"] = n
     # Future<A>: the conversion and the destructor are translated; the other members must be plain forwards to the embedded Future<void>
     txt, n = compile_fn(fa, "Future<A>::operator const A&", r"operator\s+const\s+A\s*&\s*\(\s*\)\s*const", env, {}, "Option Int", "futAResultStep", "",
@@ -1652,8 +1685,16 @@ inductive Callee where
   | fsSetEnq | fsResetEnq | fsWaitEnq | fsSetDeq   -- FastSignal operations on the pool's _enqueuedSignal / _dequeuedSignal
   | push                             -- the pool queue's push(job)
   | fsResetDeq | fsWaitDeq
+  | poolRun                          -- threadPool->run(proc, args)
   | jobProc                          -- job.proc(job.args): Future<…>::proc for the call record of the popped job
   deriving DecidableEq, Repr
+
+/-- what `Future<void>::startProc` touches: the two statics of `Private`, whether it constructed a pool, and its own object -/
+structure StartSt where
+  tp : Nat            -- Private::_threadPool (0 = null)
+  tplock : Nat        -- Private::_threadPoolLock
+  created : Bool      -- `new Private::ThreadPool` was executed
+  fut : Fut
 
 /-- outcome of one translated micro-step: continue at the shared access `pc`, return, call a modelled function and continue at `next`
     (`none` = the calls are the last action: the function returns when the last callee does; several calls in a row are one entry),
